@@ -37,9 +37,10 @@ type Case struct {
 	Host     string      `json:"host"`
 	App      string      `json:"app"`
 	Remotes  [][2]string `json:"remotes,omitempty"`
-	Size     int         `json:"size,omitempty"` // packet size announced in the first reply (0: none)
-	Fail     string      `json:"fail,omitempty"` // make the login fail: "", "loginack-fail", "stall", "bad-key"
+	Size     int         `json:"size,omitempty"`  // packet size announced in the first reply (0: none)
+	Fail     string      `json:"fail,omitempty"`  // make the login fail: "", "loginack-fail", "stall", "bad-key"
 	Reuse    string      `json:"reuse,omitempty"` // "plain" | "encrypted": the same LoginConfig object was used for such a login before
+	OldPw    string      `json:"oldpw,omitempty"` // with Reuse: that earlier login used this account password, the caller changed it on the config since
 }
 
 var h *hlib.H
@@ -72,9 +73,9 @@ func (r *rdr) take(n int) []byte {
 
 // one MSG + PARAMFMT + PARAMS group of message 2
 type group struct {
-	msgID  int
-	names  []string
-	blobs  [][]byte
+	msgID int
+	names []string
+	blobs [][]byte
 }
 
 func (r *rdr) group() group {
@@ -192,7 +193,7 @@ func run(c Case) {
 			reps[0].Pkgs[len(reps[0].Pkgs)-2] = d
 		}
 	}
-	res := lg.Run(lg.Scenario{Encrypt: c.Encrypt, User: c.User, Password: c.Password, Host: c.Host, App: c.App, Remotes: c.Remotes, Replies: reps, Timeout: 30 * time.Second, Warmup: c.Reuse, ReuseConfig: c.Reuse != ""})
+	res := lg.Run(lg.Scenario{Encrypt: c.Encrypt, User: c.User, Password: c.Password, Host: c.Host, App: c.App, Remotes: c.Remotes, Replies: reps, Timeout: 30 * time.Second, Warmup: c.Reuse, ReuseConfig: c.Reuse != "", OldPassword: c.OldPw})
 	h.Eval(c.Password != "")
 	h.State()
 	h.Trace()
@@ -349,7 +350,15 @@ func run(c Case) {
 		h.Violate("C09|message2|unaccounted-bytes|"+cls, fmt.Sprintf("%s: %v", ctxt, r.err), c)
 		return
 	}
-	if g1.msgID != 31 || g2.msgID != 32 || g3.msgID != 34 || len(g1.blobs) != 1 || len(g3.blobs) != 1 || len(g2.blobs) != 1+len(c.Remotes) || len(g2.names) != 1+len(c.Remotes) {
+	// (a config the library has used before may carry the current-server entries of its earlier logins as well)
+	extra := 0
+	if c.OldPw != "" {
+		extra = len(g2.blobs) - 1 - len(c.Remotes)
+		if extra < 0 || extra > 1 {
+			extra = 0
+		}
+	}
+	if g1.msgID != 31 || g2.msgID != 32 || g3.msgID != 34 || len(g1.blobs) != 1 || len(g3.blobs) != 1 || len(g2.blobs) != 1+extra+len(c.Remotes) || len(g2.names) != 1+extra+len(c.Remotes) {
 		h.Violate("C09|message2|structure", fmt.Sprintf("%s: message ids %d/%d/%d, blobs %d/%d/%d, names %d", ctxt, g1.msgID, g2.msgID, g3.msgID, len(g1.blobs), len(g2.blobs), len(g3.blobs), len(g2.names)), c)
 		return
 	}
@@ -376,6 +385,12 @@ func run(c Case) {
 	}
 	wantNames := []string{""}
 	wantPw := []string{c.Password}
+	if extra == 1 {
+		// the entry left by the earlier login: what it should hold after the password was changed is not
+		// specified; the FIRST entry for the current server must carry the current password
+		wantNames = append(wantNames, "")
+		wantPw = append(wantPw, "\x00either")
+	}
 	for _, rm := range c.Remotes {
 		wantNames = append(wantNames, rm[0])
 		wantPw = append(wantPw, rm[1])
@@ -384,6 +399,9 @@ func run(c Case) {
 		s, ok := dec("remote-password", b)
 		if !ok {
 			return
+		}
+		if wantPw[i] == "\x00either" && g2.names[i] == "" && (string(s) == c.Password || string(s) == c.OldPw) {
+			continue
 		}
 		if string(s) != wantPw[i] || g2.names[i] != wantNames[i] {
 			h.Violate("C09|ciphertext|wrong-secret|remote-password", fmt.Sprintf("%s: remote entry %d: name %q, decrypts to %q; want %q / %q", ctxt, i, g2.names[i], s, wantNames[i], wantPw[i]), c)
@@ -424,7 +442,7 @@ func run(c Case) {
 			}
 		}
 	}
-	if want := 2 + len(c.Remotes) + 1 + 1; len(res.Draws) != want {
+	if want := 2 + extra + len(c.Remotes) + 1 + 1; len(res.Draws) != want {
 		h.Violate("C09|randomness|draw-count", fmt.Sprintf("%s: %d random draws for %d encryptions and one session key", ctxt, len(res.Draws), want-1), c)
 		return
 	}
@@ -515,6 +533,11 @@ func main() {
 			}
 		}
 		emit(Case{Encrypt: false, Password: "plain-password-in-its-slot", User: "sa", Host: "client-host", App: "my-application", Reuse: reuse})
+		// ... and the caller changed the account password on the config between the two logins
+		for _, rem := range [][][2]string{nil, {{"REMOTE1", "remote-secret-number-one"}}} {
+			emit(Case{Encrypt: true, KeyBits: 1024, Nonce: 16, Password: "the-new-secret-password", OldPw: "0ld-secret-passw0rd", User: "sa", Host: "client-host", App: "my-application", Remotes: rem, Reuse: reuse})
+			h.Section("config-reuse-password-changed", 1)
+		}
 	}
 	// control: plain flow
 	for _, pw := range []string{"", "p", "plain-password-in-its-slot", rep("x", 30)} {
